@@ -2,24 +2,34 @@ from props import KERNEL_TB, HARNESS_TB
 
 PROP = dict(
     title="Oracle price averaging",
-    lean_modules=["Comdex.Props.C17"],
+    lean_modules=["Comdex.Props.C17", "Comdex.Props.C17Feed"],
     namespaces=["Comdex.C17"],
     required_theorems=["Comdex.C17.no_panic", "Comdex.C17.refines_spec", "Comdex.C17.active_mean",
                        "Comdex.C17.active_only_after_N_positive", "Comdex.C17.zero_sample_deactivates",
                        "Comdex.C17.inactive_valuation_refused", "Comdex.C17.latest_price_in_bounds",
-                       "Comdex.C17.mean_fits_word"],
-    harness_tests=["TestC17"],
+                       "Comdex.C17.mean_fits_word",
+                       "Comdex.C17.market_begin_total", "Comdex.C17.validated_feed_assigns_by_rank", "Comdex.C17.fedWith_eq_rank",
+                       "Comdex.C17.discard_clears_every_window_first", "Comdex.C17.no_sampling_block_changes_nothing",
+                       "Comdex.C17.unvalidated_feed_refuses_every_valuation", "Comdex.C17.band_validation_iff_new_request",
+                       "Comdex.C17.band_discard_only_after_long_outage", "Comdex.C17.band_discard_when_long_outage",
+                       "Comdex.C17.band_short_outage_forgotten"],
+    harness_tests=["TestC17", "TestC17Feed"],
     trusted_base=[KERNEL_TB, HARNESS_TB,
                   "Model/Twa.lean is hand-written from x/market/keeper/oracle.go:67-170 and x/market/abci.go:24-60; "
                   "tied by running real UpdatePriceList/GetLatestPrice/CalcAssetPrice on a real store and comparing the "
                   "stored record field by field after every call",
-                  "protobuf (de)serialisation and the KV store are exercised, not modelled"],
+                  "Model/Feed.lean is hand-written from x/market/abci.go:15-75 and x/bandoracle/abci.go + oracle.go (request id / result / "
+                  "discard bookkeeping); tied by running the REAL begin-blockers of both modules and the real IBC acknowledgment / response "
+                  "handlers of the band module and comparing the band state and every stored window after every block",
+                  "protobuf (de)serialisation, the KV store and the IBC send of FetchPrice (no effect on this state) are exercised, not modelled"],
     assumptions=["block heights are positive (the chain starts at height 1)",
                  "the window size N is fixed over a history (as the property states) and N >= 1",
-                 "the band-oracle feeding path (x/market/abci.go) is represented by its per-record effects"],
+                 "asset ids are distinct (they are store keys)"],
     rule="each case is one generated sample sequence (window size 1-12, accepted gap, zero/boundary/MaxUint64/repeated samples, "
          "height gaps around the accepted gap, discard-all and deactivate events, reader calls) run on the real market keeper; "
-         "distinct = distinct trace text, non-trivial = at least one call returned normally",
+         "plus generated feeds (1-6 assets with and without oracle pricing, result lists shorter / longer than the asset list, zero and maximal "
+         "rates, oracle outages shorter and longer than the accepted gap, sampling and non-sampling blocks, feed never configured) through the "
+         "real begin-blockers; distinct = distinct trace text, non-trivial = at least one call returned normally",
 )
 
 META = dict(
@@ -28,8 +38,12 @@ META = dict(
     text="Kernel-checked: for every window size N>=1, accepted gap and finite op list from the empty store the model of "
          "UpdatePriceList never panics/indexes out of range, refines a sliding-window specification (window = last N positive "
          "samples since the last reset), publishes exactly floor(sum/N) when active, activates only after N positive samples, "
-         "a zero sample deactivates, inactive valuation is refused. The model is tied to the code by replaying generated sample "
+         "a zero sample deactivates, inactive valuation is refused; and for the feed around it: the market begin-blocker never panics for any "
+         "result list / asset list, gives every oracle-priced asset exactly one update with the rate at its rank (every other window untouched), "
+         "clears every window first when a discard is pending, changes nothing outside sampling blocks, switches every listed price off (refused to "
+         "consumers) while the feed is not validated; the band side validates iff a new request was acknowledged and orders a discard only after an "
+         "outage of at least the accepted gap. The model is tied to the code by replaying generated sample "
          "sequences on the real keeper and comparing every stored record field by field.",
     note="Trusted: Lean kernel (axioms propext, Quot.sound only), the hand-written model's faithfulness as far as the "
-         "correspondence run exercises it, heights>0, fixed N. The band-oracle feed is represented by per-record effects.",
+         "correspondence run exercises it, heights>0, fixed N.",
 )
